@@ -23,33 +23,33 @@ NOTES = ("Static analysis only: every check re-extracts facts from /repo's worki
 CLAIMED = {
     "C01": dict(
         engine="E1+E3",
-        technique="static analysis: whole-program who-writes + CFG guard dominance on Parameter::value_/constraint_; abstract interpretation of IntervalConstraint over all order types",
+        technique="static analysis: whole-program who-writes + CFG guard dominance on Parameter::value_/constraint_; abstract interpretation of IntervalConstraint over all order types; parallel-initialiser agreement of the half-line constructor; shared copy rule",
         level=("Static rules over the resolved program decide: every store to a parameter's value/constraint in the whole library is a checked write, pair copy, guarded install or "
                "unconstrained initialisation; the constructor validates; no effect precedes a rejecting throw; the interval algebra (membership, inclusion, intersection, emptiness, limits) "
                "equals its set-theoretic definition on every order type of bounds x flags (exhaustive truth table by abstract interpretation of the syntax tree); AutoParameter stores the accepted limit; "
-               "bracket tables of the description syntax agree. This covers all inputs and histories for those clauses, which a sampled test cannot."),
+               "bracket tables of the description syntax agree. This covers all inputs and histories for those clauses, which a sampled test cannot. The half-line constructor gives the finite end the caller's inclusion flag and leaves the infinite end open."),
         note=TB + "Not decided: floating-point spacing of limit+-1e-12, numeric parsing inside readDescription, constraints mutated after installation through a shared pointer."),
 }
 
 CLAIMED["C02"] = dict(
     engine="E1+E5",
-    technique="static analysis: loop-pair (validate/apply) agreement over resolved expressions, CFG guard dominance on every insertion into ParameterList::parameters_, clone-vs-share classification, per-iteration counter lock-step",
+    technique="static analysis: loop-pair (validate/apply) agreement over resolved expressions, CFG guard dominance on every insertion into ParameterList::parameters_, clone-vs-share classification, per-iteration counter lock-step; early-exit rule on validation loops; order rule for positional bulk erase; shared copy rule (members, clone vs share, reset on every path)",
     level=("Static rules decide, for all lists and values: each bulk setter validates the TARGET's constraint on the very value it later stores, over the same range and filter, in a loop that dominates the "
            "apply loop; flag/store/position are recorded together and the position counter advances exactly once per iteration; every insertion into a list (whole program) keeps names unique; copy "
-           "functions store clones and share functions the source's pointer; index-set deletion sorts a copy, walks it descending and range-checks; owners notify only after the list operation returned."),
+           "functions store clones and share functions the source's pointer; index-set deletion sorts a copy, walks it descending and range-checks; owners notify only after the list operation returned. A validation pass cannot be left before the last entry; positions of an index set are erased in descending order."),
     note=TB + "Not decided: 'exactly the named entries' as a value statement, precision>0 corner cases, atomicity when a listener throws during the apply pass, setParameter(index,param).")
 
 CLAIMED["C20"] = dict(
     engine="E3+E1",
-    technique="static analysis: abstract interpretation of Range primitives over all order types of the end points; must-pass-through (clean_ after mutation), clone/ownership pairing and erase-advance rules on the CFG",
+    technique="static analysis: abstract interpretation of Range primitives over all order types of the end points; must-pass-through (clean_ after mutation), clone/ownership pairing and erase-advance rules on the CFG; shared copy rule (members, reset on every path of operator=); argument-swap rule",
     level=("For Range/RangeSet/MultiRange<int|unsigned long|double>: overlap/contains/isContiguous/isEmpty/expandWith/sliceWith/==/!=/constructor equal half-open interval arithmetic on every order type "
            "(exhaustive truth table from the syntax tree); shifts treat both ends alike; copies store clones and assignment clears first; every MultiRange mutator re-establishes the canonical form via clean_ "
-           "(std::sort with rangeComp_ + removal of empties); erase loops do not skip the element that slides into an erased slot; delete/erase/clear pairing of owned pointers."),
+           "(std::sort with rangeComp_ + removal of empties); erase loops do not skip the element that slides into an erased slot; delete/erase/clear pairing of owned pointers. operator= empties the owned list on every path except self-assignment."),
     note=TB + "Not decided: union/total length over operation histories, correctness of addRange's merge order, rangeComp_ as a strict weak order (relies on disjointness).")
 
 CLAIMED["C03"] = dict(
     engine="E1+E4+E5",
-    technique="static analysis: state-preserving-cycle search on the CFG with exception edges and callee effect summaries; assign-reset, fresh-object (clone -> retarget -> store) typestate, throw-after-mutation reachability, must-pass bookkeeping",
+    technique="static analysis: state-preserving-cycle search on the CFG with exception edges and callee effect summaries; assign-reset, fresh-object (clone -> retarget -> store) typestate, throw-after-mutation reachability, must-pass bookkeeping; shared copy rule incl. fix-up loop range agreement between copy constructor and operator=",
     level=("Static rules decide: no loop of the bulk-alias routine can cycle without writing loop state (termination clause, for every map); operator= clears what it re-populates; cloned listeners are "
            "re-targeted to the copy's own list before being registered/attached and shared pointers come from the copy itself; refusals precede every mutation in alias/unalias; the three bookkeeping "
            "steps happen on every normal path on the right parameters; setNamespace renames listeners before the base class; the intersected constraint is installed on both parameters."),
@@ -66,15 +66,15 @@ CLAIMED["C15"] = dict(
 
 CLAIMED["C13"] = dict(
     engine="E6+E5",
-    technique="static analysis: structural inference of memo keys and lazy flags, reset/cover rules on the CFG of every fireParameterChanged sibling, lazy-flag coverage via callee effect summaries, sibling protocol and copy/assign member agreement",
+    technique="static analysis: structural inference of memo keys and lazy flags, reset/cover rules on the CFG of every fireParameterChanged sibling, lazy-flag coverage via callee effect summaries, sibling protocol and copy/assign member agreement; reference-aliasing rule at call sites of update-by-scalar helpers (callee summaries: which const-reference scalars are read inside a loop that writes the container); accessor/view expression agreement of the transition models; argument-swap rule",
     level=("Static rules decide the history clause ('answers depend only on the current parameter values'): every notification that recomputes the forward pass resets the derivative memo keys and the backward "
            "lazy flags on the same paths; a method that marks a transition model up to date has computed every result served under that flag; the three likelihood classes follow one update protocol; "
-           "copy constructor and operator= copy the same members."),
+           "copy constructor and operator= copy the same members. No call hands an update-by-scalar helper an element of the vector it updates; Pij(i,j) and the entry getPij() stores are the same expression."),
     note=TB + "Not decided: numerical equality of the three algorithms, agreement with path enumeration, derivative values, stochasticity/stationarity of built-in matrices, flat-array index ranges (E2 not applied here).")
 
 CLAIMED["C12"] = dict(
     engine="E4+E5+E1+E7",
-    technique="static analysis: acquire/release typestate on the CFG (enable-flag pairing, probe->restore with stable-fact path restriction), entry-point sibling agreement, guard dominance for delegation, table agreement between the name->slot map and slot writes; reaching-definition walk naming the point of every probe value + computer-algebra identity check of each difference formula on generic polynomials (sympy; re-execs under python3-vt)",
+    technique="static analysis: acquire/release typestate on the CFG (enable-flag pairing, probe->restore with stable-fact path restriction), entry-point sibling agreement, guard dominance for delegation, table agreement between the name->slot map and slot writes; reaching-definition walk naming the point of every probe value + computer-algebra identity check of each difference formula on generic polynomials (sympy; re-execs under python3-vt); values assigned inside a try body are stale in its handlers unless taken again",
     level=("Static rules decide the transparency clauses for every input and history: all six update entry points forward then update with what was set; every variable shifted for a probe is restored from the "
            "unmodified argument on every path to the normal exit; analytic derivatives switched off for probing are switched back on at every normal exit; the cached derivative is served only for selected "
            "variables with computing on, else delegated; the selection table is rebuilt from scratch; constraint-hit handlers flip the probing side or use one-sided formulas; slots are indexed by selection position; every difference formula stored into a derivative slot, "
@@ -83,10 +83,10 @@ CLAIMED["C12"] = dict(
 
 CLAIMED["C09"] = dict(
     engine="E6+E1+E8",
-    technique="static analysis: rebuild-after-change must-pass on every notification/entry point, structural inference of parameter caches and constructor-derived state, clear-before-fill dominance, index-equals-size, throw-type typing, strict/inclusive polarity typing of booleans, lookup-loop coverage, copy/assign member agreement",
+    technique="static analysis: rebuild-after-change must-pass on every notification/entry point, structural inference of parameter caches and constructor-derived state, clear-before-fill dominance, index-equals-size, throw-type typing, strict/inclusive polarity typing of booleans, lookup-loop coverage, copy/assign member agreement; shared copy rule (clone vs share of owning pointers); argument-swap rule",
     level=("Static rules decide, for every family and history: every accepted change (parameter, class count, median, restriction) reaches a rebuild after its last state write, compounds updating their components first; "
            "every member caching a parameter or derived from one in the constructor is refreshed before the rebuild; rebuilds clear before filling; no access at an index equal to the established size; only library "
-           "exceptions; booleans handed to 'strict' parameters have strict polarity and class values used as bounds are included; value lookups compare every interior bound; copy constructor and operator= agree."),
+           "exceptions; booleans handed to 'strict' parameters have strict polarity and class values used as bounds are included; value lookups compare every interior bound; copy constructor and operator= agree. copy constructor and operator= agree on cloning the domain interval."),
     note=TB + "Not decided: probabilities summing to one, values inside their interval, discrete mean, cumulative/quantile consistency, stick-breaking weights of mixtures (numerical).")
 
 CLAIMED["C18"] = dict(
@@ -98,24 +98,24 @@ CLAIMED["C18"] = dict(
 
 CLAIMED["C16"] = dict(
     engine="E4+E1",
-    technique="static analysis (necessary conditions): npos typestate on std::string search results with guard dominance, unsigned 'size()-c' underflow rule, feasible state-preserving-cycle search and zero-stride idiom on every loop, interprocedural division-by-parameter rule, throw-type typing, look-ahead re-test rule on counted loops, emptiness typestate on tokenizer token lists and on local containers (path search avoiding every filling statement)",
+    technique="static analysis (necessary conditions): npos typestate on std::string search results with guard dominance, unsigned 'size()-c' underflow rule, feasible state-preserving-cycle search and zero-stride idiom on every loop, interprocedural division-by-parameter rule, throw-type typing, look-ahead re-test rule on counted loops, emptiness typestate on tokenizer token lists and on local containers (path search avoiding every filling statement); map::at presence rule; unsigned-variable loop bounds; argument-swap rule",
     level=("Necessary conditions of 'never crashes or hangs', decided for every input over the 13 anchored units: search results on caller-supplied text are tested against npos before positional use; "
            "no 'size() - c' bound/index on a possibly empty container without a guard (local containers: no path from the empty declaration to the access without a filling statement or a guard); a loop counter advanced a second time "
            "inside the body is re-tested before it indexes; the first token of a tokenizer is read only after a test that one exists; none of the loops can cycle without changing state and none advances only by the size of a possibly empty caller string; "
-           "integral divisions by a parameter are guarded; only library exceptions are thrown explicitly. Passing these rules does NOT prove absence of crashes (that remains the fuzzers' job)."),
+           "integral divisions by a parameter are guarded; only library exceptions are thrown explicitly. Passing these rules does NOT prove absence of crashes (that remains the fuzzers' job). map::at(K) follows a presence test of the same key; an unsigned count converted from the caller's text is tested before 'count - 1' bounds a growing loop."),
     note=TB + "Not decided: invalid iterators inside std algorithms, signed overflow, allocation size, index ranges that need value reasoning, exceptions escaping from std members.")
 
 CLAIMED["C14"] = dict(
     engine="E1+E5+E4",
-    technique="static analysis: guard dominance for inserting reads of the node/edge tables, mirrored-call sibling rule (link vs unlink under '!directed_'), must-pass notification after erase (through private helpers), co-update of map groups, assign-reset and re-subscription order, inverse-map write agreement, refusal-before-write ordering with effect summaries that follow iterators into the tables, discarded-insert-result rule on the relation maps",
+    technique="static analysis: guard dominance for inserting reads of the node/edge tables, mirrored-call sibling rule (link vs unlink under '!directed_'), must-pass notification after erase (through private helpers), co-update of map groups, assign-reset and re-subscription order, inverse-map write agreement, refusal-before-write ordering with effect summaries that follow iterators into the tables, discarded-insert-result rule on the relation maps; strict size guard rule for at()/operator[]; sibling agreement of the sixteen neighbour-iterator constructors",
     level=("Static rules decide for every history: the node/edge tables never gain phantom entries through an unguarded operator[] read; unlink mirrors link for undirected graphs; every deletion reaches the observer "
            "notification; an object forgotten by an observer is forgotten in every map; observer assignment clears, unsubscribes and re-subscribes; paired inverse maps are written consistently (copy constructors included); no member refuses after it has changed the tables (own throws, precondition helpers, and the mirrored test-then-erase helper for a node's relation with itself); "
-           "a relation recorded with a discarded insert() result is preceded by an absence test (refuted on the pinned tree: known finding, parallel edges)."),
+           "a relation recorded with a discarded insert() result is preceded by an absence test (refuted on the pinned tree: known finding, parallel edges). An index compared with a table's size before at() is compared strictly; all spellings of the outgoing (incoming) neighbour iterators walk the same relation map."),
     note=TB + "Not decided: agreement with a reference multigraph over histories, iterator contents vs list queries, unchecked find() results on absent ids in protected members (undefined behaviour tolerated by libstdc++).")
 
 CLAIMED["C11"] = dict(
     engine="E7+E3+E1",
-    technique="static analysis: sibling closed-form members extracted per guard valuation from the syntax tree and compared with a computer-algebra normaliser (inverse / derivative pairs, witness point required to refute); finite case analysis of init_ over the 8 bound configurations; chain-rule shape; must-pass forwarding",
+    technique="static analysis: sibling closed-form members extracted per guard valuation from the syntax tree and compared with a computer-algebra normaliser (inverse / derivative pairs, witness point required to refute); finite case analysis of init_ over the 8 bound configurations; chain-rule shape; must-pass forwarding; the wrapper's own accessors modelled in the chain-rule polynomial",
     level=("Static comparison of sibling formulas decides, for every value in each guard region: the half-line and interval transforms invert (unit scale for the half-line formula) and their first/second derivative "
            "members are the derivatives of the back-transform; the wrappers' derivative accessors have the chain-rule shape; each of the eight bound configurations gets exactly one transform of the right kind, "
            "orientation and inward-nudged bounds; fireParameterChanged syncs every coordinate, setParameters always forwards, getValue delegates, the constructor leaves the wrapped function untouched. "
@@ -124,24 +124,24 @@ CLAIMED["C11"] = dict(
 
 CLAIMED["C19"] = dict(
     engine="E5+E1",
-    technique="static analysis: clone agreement of the parameter formulas in constructor vs setFrequencies under renaming, size-guard dominance for argument indexing, constraint attachment on every created Parameter, no-early-exit rule on the loops filling the probability vector",
+    technique="static analysis: clone agreement of the parameter formulas in constructor vs setFrequencies under renaming, size-guard dominance for argument indexing, constraint attachment on every created Parameter, no-early-exit rule on the loops filling the probability vector; coverage rule for countdown loops storing into member vectors; argument-swap rule",
     level=("Narrow structural claim: per coding the two implementations of 'probabilities -> parameters' compute the same formulas; the setter's argument is indexed only under a dimension test; every simplex "
-           "parameter carries the allowNull-selected unit-interval constraint; the notification fills every probability entry and gives the last one the remaining mass."),
+           "parameter carries the allowNull-selected unit-interval constraint; the notification fills every probability entry and gives the last one the remaining mass. A countdown loop i > 0 stores at [i - 1] (element 0 is not skipped)."),
     note=TB + "Not decided: normalisation / inversion / injectivity as values, the binary coding's bit arithmetic, OrderedSimplex ordering, consistency of literal parameters in the dimension constructor.")
 
 CLAIMED["C17"] = dict(
     engine="E5+E1",
-    technique="static analysis: writer/reader table agreement extracted from the syntax tree (family names, argument keys, parameter names), last-write rule for recorded separators in the tokenisers, alpha-equivalence of the three wildcard-matcher clones",
+    technique="static analysis: writer/reader table agreement extracted from the syntax tree (family names, argument keys, parameter names), last-write rule for recorded separators in the tokenisers, alpha-equivalence of the three wildcard-matcher clones; argument/parameter name agreement at forwarding calls",
     level=("Narrow structural claim about the round-trip clauses: everything the distribution writer can emit (family names, 'key=' arguments) is understood by the reader and the reader's parameter keys exist; "
-           "tokenisers record a separator only once the scan position is final and never store a continued token without its separator; the three copies of the '*' matcher are the same algorithm."),
+           "tokenisers record a separator only once the scan position is final and never store a continued token without its separator; the three copies of the '*' matcher are the same algorithm. Same-typed parameters (decimal separator, exponent marker) are forwarded to their own positions."),
     note=TB + "Not decided: numeric round trips, the decimal-number grammar (hand-written automaton), nested tokenising, glob semantics of the shared algorithm, variable-resolution fixed point, delimited-table round trip.")
 
 CLAIMED["C10"] = dict(
     engine="E1+E5",
-    technique="static analysis: call-graph reachability of doStep()/step() from loops and their exit conditions, dominance/ordering of the constraint-policy installation, argument provenance of bracketing/line-search calls, restore-before-return path rule, feasible state-preserving-cycle search on every loop, evaluation-point freshness typestate, evaluation accounting, abscissa/value pairing of parallel transfers (pairs grounded in evaluation events, propagated and cross-checked per straight-line region)",
+    technique="static analysis: call-graph reachability of doStep()/step() from loops and their exit conditions, dominance/ordering of the constraint-policy installation, argument provenance of bracketing/line-search calls, restore-before-return path rule, feasible state-preserving-cycle search on every loop, evaluation-point freshness typestate, evaluation accounting, abscissa/value pairing of parallel transfers (pairs grounded in evaluation events, propagated and cross-checked per straight-line region); shared copy rule on the optimiser classes (members, clone vs share, re-binding of cloned helpers); argument-swap rule",
     level=("Narrow structural claim: the only loops driving an optimiser's own steps are capped by the evaluation budget; the automatic/ignore constraint policy is installed on the optimiser's own list before anything is "
            "evaluated, covers every parameter, is re-applied on copy, and bracketing/line search work on that list; a step that gives up restores the objective before reporting the old value; no loop can cycle without changing state; the objective is evaluated at the abscissa its value is then filed under; "
-           "every move, shift, swap, selection or bracket update of an evaluated point keeps the value with its abscissa."),
+           "every move, shift, swap, selection or bracket update of an evaluated point keeps the value with its abscissa. Copy constructor and operator= of the optimisers copy the same members and re-bind the cloned stop conditions to the new object in both."),
     note=TB + "Not decided: descent, reported value = f(reported point) beyond the pairing of transfers, convergence on quadratics, feasibility of every evaluation, bracketing triples: these are values of runs.")
 
 CLAIMED["C08"] = dict(
@@ -154,11 +154,11 @@ CLAIMED["C08"] = dict(
 
 CLAIMED["C04"] = dict(
     engine="E2+E5+E8",
-    technique="static analysis: symbolic index-bound analysis of every instantiated MatrixTools kernel (index ranges and container dimensions as polynomials over size symbols, facts from throwing guards and resize calls on every path, refutation only with a witness shape whose reachability is decided by control dependence), accessor agreement of the three storage classes, implicit-conversion scan, identity-element / accumulator-reset dominance rules",
+    technique="static analysis: symbolic index-bound analysis of every instantiated MatrixTools kernel (index ranges and container dimensions as polynomials over size symbols, facts from throwing guards and resize calls on every path, refutation only with a witness shape whose reachability is decided by control dependence), accessor agreement of the three storage classes, implicit-conversion scan, identity-element / accumulator-reset dominance rules; must-pass of the inner sizing in resize; computer-algebra check that a scalar shortcut is taken only where the element update is the identity; argument-swap rule",
     level=("Decides the shape clauses only: every element access of every MatrixTools kernel stays inside the dimensions that the guards and resize calls on its path establish for all shapes (incl. 0xn, 1xn, non-square, "
            "unsized outputs), non-conformable operands reach a throwing guard before the first access, the three storage classes address the same element in their const and non-const accessor and keep their counters "
            "in step with the storage, kernels have no implicit floating->integral truncation, reductions start from the right identity and products zero their output entry. The entries' values, storage-independence "
-           "of the values and optimality/dual certificate of the assignment solver are NOT claimed."),
+           "of the values and optimality/dual certificate of the assignment solver are NOT claimed. resize sizes the inner vectors on every path; a scalar early return is taken only where the update it skips is the identity."),
     note=TB + "sympy (tooling venv) does the polynomial comparisons. Data-dependent indices (the assignment solver's lists) stay UNKNOWN. Known findings: MatrixTools::lap (see known_findings.json).")
 
 CLAIMED["C05"] = dict(
